@@ -113,8 +113,8 @@ Proof.
   assert (R1 : registry s1 = registry s) by (unfold provide in Ep; inversion Ep; subst; reflexivity).
   assert (A1 : actors s1 = actors s) by (unfold provide in Ep; inversion Ep; subst; reflexivity).
   set (s2 := set_actors s1 (actors s1 ++ [new_actor t self r inst])).
-  destruct (lookup t (registry s2)).
-  - intros H; inversion H; subst. apply ext_of_keep; [exact K|]. unfold regsame, s2, set_actors; cbn [registry]. exact R1.
+  change (registry s2) with (registry s1) in *. destruct (lookup t (registry s1)).
+  - intros H; inversion H; subst. apply ext_of_keep; [exact K|]. unfold regsame, set_actors; cbn [registry]. exact R1.
   - intros H. eapply ext_trans; [|eapply ext_stop; exact H].
     assert (K5 : keep s (deliver_sys (upd_actor (set_registry s2 (set_key t (length (actors s1)) (registry s2))) u
                       (fun a => w_children (insert_sorted t (a_children a)) a)) t self SLaunch)).
